@@ -237,6 +237,9 @@ func (P *Program) addSpecFile(sf *SpecFile) {
 				fs.Key = parts[1]
 			}
 		}
+		if fs.BodySpec {
+			key += "#body"
+		}
 		if _, dup := P.specs[key]; dup {
 			P.specErrs = append(P.specErrs, fmt.Sprintf("%s: duplicate contract for %s", fs.Pos, key))
 		}
@@ -246,6 +249,14 @@ func (P *Program) addSpecFile(sf *SpecFile) {
 }
 
 func externalKey(k string) string { return k }
+
+// bodySpecOf: the contract a function's body is verified against (its `bodyspec` contract if one exists).
+func (P *Program) bodySpecOf(fn *ssa.Function) *FuncSpec {
+	if sp := P.specs[specKeyOf(fn)+"#body"]; sp != nil {
+		return sp
+	}
+	return P.specs[specKeyOf(fn)]
+}
 
 func (P *Program) typesPkg(path string) *types.Package { return P.tpkgByPath[path] }
 
@@ -355,6 +366,18 @@ func (P *Program) paramNames(sp *FuncSpec, fn *ssa.Function, cc *ssa.CallCommon)
 	if fn != nil {
 		for _, p := range fn.Params {
 			names = append(names, p.Name())
+		}
+		return names
+	}
+	if !cc.IsInvoke() {
+		// value of a named function type: the parameter names of its signature
+		sig := cc.Signature()
+		for i := 0; i < sig.Params().Len(); i++ {
+			n := sig.Params().At(i).Name()
+			if n == "" || n == "_" {
+				n = fmt.Sprintf("arg%d", i)
+			}
+			names = append(names, n)
 		}
 		return names
 	}
